@@ -154,13 +154,16 @@ class Scn:
 
 def scenario(r, big):
     n, t = r.choice(SHAPES)
-    nv = r.choice([1, 1, 2, 2, 3])
+    flavour = r.choice(["threshold", "threshold", "interleave", "all", "files", "selectors", "epochs", "chaos", "tamper", "tamper", "squat", "retry",
+                        "mixdir", "mixdir"])
+    nv = r.choice([2, 3]) if flavour == "mixdir" else r.choice([1, 1, 2, 2, 3])
     st = [r.choice(["active_ongoing"] * 4 + STATUSES) for _ in range(nv)]
+    if flavour == "mixdir":
+        st = [r.choice(["active_ongoing"] * 5 + ["exited_unslashed"]) for _ in range(nv)]
     sc = Scn(r, n, t, nv, st)
     byz = r.choice([0, 0, n, n, r.randint(1, n)])
     honest = [o for o in range(1, n + 1) if o != byz]
     v, e = r.randint(1, nv), r.choice([1, 1, 2])
-    flavour = r.choice(["threshold", "threshold", "interleave", "all", "files", "selectors", "epochs", "chaos", "tamper", "tamper", "squat", "retry"])
 
     def sign(op, **kw):
         sel = kw.pop("sel", r.choice(["pk", "pk", "pk", "idx", "both"]))
@@ -203,6 +206,22 @@ def scenario(r, big):
         if r.random() < 0.5:
             sc.s.append({"ev": "Status", "v": v, "st": r.choice(["active_exiting", "exited_unslashed"])})
             sc.start(r.choice(honest), "bcast", sel=r.choice(["pk", "all"]), v=v)
+    elif flavour == "mixdir":
+        # a directory with exits that verify and exits that do not: `exit broadcast --all --exit-from-dir` must not submit any
+        # of them unless all (active ones) verify -- whatever the order the validators come in (Go map order)
+        who = r.choice(honest)
+        bad = r.sample(range(1, nv + 1), r.choice([1, 1, 1, 0, 2]) if nv > 2 else r.choice([1, 1, 0]))
+        for x in range(1, nv + 1):
+            if x in bad:
+                sv = r.choice([x, x, x % nv + 1])
+                sh = sorted(r.sample(range(1, n + 1), t - 1 if sv == x else t))
+            else:
+                sv, sh = x, sorted(r.sample(range(1, n + 1), r.choice([t, n])))
+            sc.s.append({"ev": "Plant", "op": who, "v": x, "sv": sv, "shares": sh or [1], "e": e, "iv": sv})
+        sc.start(who, "bcast", sel="all", src="dir")
+        if r.random() < 0.5:
+            sc.s.append({"ev": "Status", "v": r.choice(bad) if bad else 1, "st": "exited_unslashed"})
+            sc.start(who, "bcast", sel="all", src="dir")
     elif flavour == "tamper":
         # enough clean partials, then every way a faulty API could hand them out
         signers = honest[:r.choice([t, t, min(len(honest), t + 1)])]
@@ -527,7 +546,7 @@ CONTROLS = (("ExitFlowMC_ctl_noAggVerify.cfg", "FetchWritesGood", "the client do
             ("ExitFlowMC_ctl_live_D1.cfg", "temporal", "D1 as coded, liveness: a retried exit sign and the exit never reaches the beacon node"))
 QUICK_MC = ["ExitFlowMC_core.cfg", "ExitFlowMC_strict.cfg", "ExitFlowMC_epoch.cfg", "ExitFlowMC_all.cfg", "ExitFlowMC_file.cfg",
             "ExitFlowMC_sel.cfg", "ExitFlowMC_out.cfg", "ExitFlowMC_four.cfg", "ExitFlowMC_live.cfg"]
-THOROUGH_MC = QUICK_MC + ["ExitFlowMC_core_thorough.cfg", "ExitFlowMC_strict_thorough.cfg", "ExitFlowMC_all_thorough.cfg"]
+THOROUGH_MC = QUICK_MC + ["ExitFlowMC_core_thorough.cfg", "ExitFlowMC_strict_thorough.cfg", "ExitFlowMC_all_thorough.cfg", "ExitFlowMC_sel_thorough.cfg"]
 GEN = ["core", "small", "epoch", "all", "file", "sel"]
 
 
